@@ -76,6 +76,10 @@ def run_case(case, trace_lines=True):
         # also every source line of core.py executed by the pipeline (worker threads run __getitem__ chains there)
         import lazy_dataset.core as _core
         trace.append(_core.__file__)
+    if case.get('cache_below') and trace_lines:
+        # ... and the Python-level pickling hooks of the example values (a thread may be switched out while one of
+        # its examples is being serialised)
+        trace.append(progs.__file__)
     sched = detsched.Scheduler(chooser, trace_files=trace)
     raised = {}
     none_at = set(case.get('none_at', []))
@@ -187,6 +191,9 @@ def run_case(case, trace_lines=True):
         if kind == 'pf2':
             # two single-thread prefetch stages stacked: two hand-over threads alive at the same time
             ds = ds.map(pull_fn).prefetch(1, b).map(fn).prefetch(1, max(1, case.get('buffer2', 1)))
+        elif kind == 'pf' and case.get('cache_below'):
+            # a memory cache between the function and a multi-worker prefetch: concurrent misses store concurrently
+            ds = ds.map(pull_fn).map(fn).cache().prefetch(w, b)
         elif kind == 'pf':
             if case.get('shuffled'):
                 import numpy as np
@@ -335,7 +342,7 @@ def describe(tr):
     return (f"workload {c['kind']} n={c['n']} workers={c['workers']} buffer={c['buffer']} "
             f"with_key={c.get('with_key', False)} src_fail={c.get('src_fail', {})} fn_fail={c.get('fn_fail', {})} "
             f"catch={c.get('catch', False)} stop={c.get('stop')} pauses={c.get('pauses', [])} "
-            + ''.join(f'{k}={c[k]} ' for k in ('vk', 'batched', 'dual', 'copy', 'src', 'shuffled', 'epochs', 'src_none', 'iter_fail', 'nested_pool', 'serial') if c.get(k) is not None and c.get(k) is not False) +
+            + ''.join(f'{k}={c[k]} ' for k in ('vk', 'batched', 'dual', 'copy', 'src', 'shuffled', 'epochs', 'src_none', 'iter_fail', 'nested_pool', 'serial', 'cache_below') if c.get(k) is not None and c.get(k) is not False) +
             f"decisions={len(tr.sched.decisions)} preemptions={tr.sched.preemptions}")
 
 
@@ -403,6 +410,12 @@ def judge_values(tr, check_len=True):
                                 f'{describe(tr)}\nepoch {e}: delivered {got_e}\nthe equally seeded sequential '
                                 f'pipeline delivers {want_e}')
         return
+    if c.get('epochs') and not c.get('shuffled') and ename is None and stop['kind'] == 'exhaust':
+        # several passes over the same object (a cache below the prefetch answers the later ones): all alike
+        for e, got_e in enumerate(getattr(tr, 'epochs', [])):
+            if got_e != want:
+                raise Violation(f'epoch-values-wrong|{c["kind"]}',
+                                f'{describe(tr)}\npass {e + 1} over the same object delivered {got_e}\nexpected {want}')
     if c.get('shuffled'):
         # random order: every failing example is caught (by construction of the case), compare as multisets
         if tr.exc is not None or sorted(map(repr, got)) != sorted(map(repr, want)):
